@@ -24,7 +24,7 @@ OBJECT_LISTS = {"layers": "layer", "classes": "class", "styles": "style", "symbo
 KV_BLOCKS = ("metadata", "validation", "values", "connectionoptions")
 REPEATED = ("processing", "formatoption", "include", "compfilter")
 WORDS = ["roads", "Layer 1", "a.b", "x_y", "café", "中文", "value-7", "semi;colon", "two  spaces", "it is", "100%", "tab\there",
-         "it's", "'primary' and 'secondary'", "'x'", '"a" or "b"', 'say "hi"', "(not an expression", "[half", "#hash", "/slash"]
+         "", " padded ", "two\nlines", "it's", "'primary' and 'secondary'", "'x'", '"a" or "b"', 'say "hi"', "(not an expression", "[half", "#hash", "/slash"]
 
 
 # ------------------------------------------------------------------ the independent reader
@@ -271,10 +271,12 @@ class Vocab:
             hi = float(hi) if hi else lo + 100
             if kind.startswith("int:"):
                 v = r.randint(int(lo), int(max(lo, min(hi, lo + 50))))
+                if r.random() < 0.05 and hi >= 10 ** 6:
+                    v = 10 ** 6
             elif hi == 255:
                 v = r.choice([0, 1, 128, 255])  # colour components are written as integers
             else:
-                v = r.choice([lo, min(hi, lo + 1), min(hi, lo + 2.5)])
+                v = r.choice([lo, min(hi, lo + 1), min(hi, lo + 2.5), min(hi, lo + 0.000001), min(hi, lo + 123456.789)])
                 if float(v).is_integer() and r.random() < 0.5:
                     v = int(v)
             return v, [["N", str(v)]]
@@ -358,6 +360,13 @@ def block_tokens(b, out):
                 out.append(["N", str(x)])
                 out.append(["N", str(y)])
             out.append(["W", "END"])
+        elif kind == "multipoints":
+            for part in item[1]:  # a multi-part FEATURE: one POINTS block per part
+                out.append(["W", "POINTS"])
+                for x, y in part:
+                    out.append(["N", str(x)])
+                    out.append(["N", str(y)])
+                out.append(["W", "END"])
         elif kind == "unprintable":
             raise Unprintable(k)
         else:
